@@ -46,6 +46,7 @@ class World:
         self.HasControlledBy = HasControlledBy
         self.HasAccessibles = HasAccessibles
         self.uid = 0
+        self.enum_table = {'a': 1, 'b': 2, 'c': 3}
 
     # ---------------------------------------------------------------- snapshots
     def snap_acc(self, a):
@@ -107,6 +108,11 @@ class World:
         if k == 'string':
             return k, self.D.StringType(maxchars=rng.choice([5, 20])), 'a'
         if k == 'enum':
+            if rng.random() < 0.5:
+                # the standard members come from a table shared by the declarations of the program, the declaration adds its
+                # own by keyword: the table belongs to the caller
+                self.uid += 1
+                return k, self.D.EnumType('mode', members=self.enum_table, **{f'x{self.uid}': 10 + self.uid}), 1
             return k, self.D.EnumType(a=1, b=2, c=3), 1
         return k, self.D.BoolType(), True
 
@@ -344,8 +350,16 @@ class World:
         log = []
         r.count('programs')
 
+        self.enum_table.clear()
+        self.enum_table.update(a=1, b=2, c=3)
+
         def frame(step, target):
             """everything but the target must be unchanged; the target is (re)recorded"""
+            r.count('frame_checks_on_the_shared_member_table')
+            if self.enum_table != {'a': 1, 'b': 2, 'c': 3}:
+                r.violation(f'C09/frame/{step[0]}-changes-the-member-table-of-the-caller', f'step {step}: the dict passed as members= to EnumType is now {self.enum_table}',
+                            {'program': log})
+                return False
             for lab, obj in list(classes.items()) + list(insts.items()):
                 now = self.snap_class(obj) if isinstance(obj, type) else self.snap_inst(obj)
                 r.count('frame_checks')
